@@ -310,8 +310,6 @@ class MessageAssembler:
         self.packet_count = 0
 
     def on_pdu(self, pdu: bytes) -> None:
-        self.packet_count += 1
-
         # Drop empty PDUs sent by remote — accessing pdu[0] below would
         # raise IndexError, propagating up to the L2CAP read loop and
         # tearing down the channel. Same class as #912 (ATT empty PDU).
@@ -357,6 +355,8 @@ class MessageAssembler:
                 )
                 self.reset()
 
+            # This is the first packet of a new message
+            self.packet_count = 1
             self.transaction_label = transaction_label
             self.signal_identifier = SignalIdentifier(pdu[1] & 0x3F)
             self.message_type = message_type
@@ -389,6 +389,8 @@ class MessageAssembler:
                 )
                 return
 
+            # Only packets that belong to the message in progress are counted
+            self.packet_count += 1
             self.message = (self.message or b'') + pdu[1:]
 
             if packet_type == Protocol.PacketType.END_PACKET:
